@@ -1,1 +1,163 @@
+import Mathlib.Tactic
 import Model.Srtm
+import Proofs.Lemmas.Arith
+import Proofs.Lemmas.Lists
+/-!
+Shape of the native grid of a valid rectangle, the grids of whole tiles, and the mosaic loop of
+`elevation` (source and destination masks select the same lattice cells in the same order).
+-/
+namespace Srtm
+
+/-- first / last global row (1-based from 90° N) and column (0-based from 180° W) of the block -/
+def rF (r : Rect) : ℤ := (nativeRows r.latMin r.latMax).1
+def rL (r : Rect) : ℤ := (nativeRows r.latMin r.latMax).2
+def cF (r : Rect) : ℤ := (nativeCols r.lonMin r.lonMax).1
+def cL (r : Rect) : ℤ := (nativeCols r.lonMin r.lonMax).2
+
+theorem nativeGrids_eq (r : Rect) :
+    nativeGrids r = ((intRange (rF r) (rL r)).map rowCentre, (intRange (cF r) (cL r)).map colCentre) := rfl
+
+theorem head_intRange {lo hi : ℤ} (h : intRange lo hi ≠ []) : (intRange lo hi).head h = lo := by
+  rw [List.head_eq_getElem, getElem_intRange]; simp
+
+theorem getLast_intRange {lo hi : ℤ} (h : intRange lo hi ≠ []) : (intRange lo hi).getLast h = hi := by
+  have hl : 0 < (intRange lo hi).length := List.length_pos_iff.mpr h
+  rw [List.getLast_eq_getElem, getElem_intRange]
+  rw [length_intRange] at hl ⊢
+  omega
+
+theorem intRange_ne_nil {lo hi : ℤ} (h : lo ≤ hi) : intRange lo hi ≠ [] := by
+  intro e
+  have := congrArg List.length e
+  rw [length_intRange] at this
+  simp at this
+  omega
+
+/-- everything the property theorems need about the block of a valid rectangle -/
+structure GridShape (r : Rect) : Prop where
+  rows_le : rF r ≤ rL r
+  cols_le : cF r ≤ cL r
+  rF_pos : 1 ≤ rF r
+  rL_le : rL r ≤ 18000
+  cF_nonneg : 0 ≤ cF r
+  cL_le : cL r ≤ 43199
+  top : r.latMax ≤ 90 - ((rF r : ℚ) - 1) / 120 ∧ 90 - ((rF r : ℚ) - 1) / 120 - r.latMax < 1 / 120
+  bottom : r.latMin - (90 - (rL r : ℚ) / 120) < 1 / 120 ∧ 90 - (rL r : ℚ) / 120 ≤ r.latMin
+  left : -180 + (cF r : ℚ) / 120 ≤ r.lonMin ∧ r.lonMin - (-180 + (cF r : ℚ) / 120) < 1 / 120
+  right : -180 + ((cL r : ℚ) + 1) / 120 - r.lonMax < 1 / 120 ∧ r.lonMax ≤ -180 + ((cL r : ℚ) + 1) / 120
+  lats_ne : (nativeGrids r).1 ≠ []
+  lons_ne : (nativeGrids r).2 ≠ []
+  head_lat : ∀ h, (nativeGrids r).1.head h = 90 - ((rF r : ℚ) - 1) / 120 - 1 / 240
+  last_lat : ∀ h, (nativeGrids r).1.getLast h = 90 - (rL r : ℚ) / 120 + 1 / 240
+  head_lon : ∀ h, (nativeGrids r).2.head h = -180 + (cF r : ℚ) / 120 + 1 / 240
+  last_lon : ∀ h, (nativeGrids r).2.getLast h = -180 + ((cL r : ℚ) + 1) / 120 - 1 / 240
+
+theorem grids_shape (r : Rect) (hv : Valid r) : GridShape r := by
+  obtain ⟨v1, v2, v3, v4, v5, v6⟩ := hv
+  have a := rowFirst_spec r.latMin r.latMax
+  have b := rowLast_spec r.latMin r.latMax
+  have c := colFirst_spec r.lonMin r.lonMax v4
+  have d := colLast_spec r.lonMin r.lonMax (by linarith)
+  have hrows : rF r ≤ rL r := by
+    have : ((rF r : ℤ) : ℚ) - 1 < (rL r : ℤ) := by unfold rF rL; linarith [a.1, b.2]
+    have : rF r - 1 < rL r := by exact_mod_cast this
+    omega
+  have hcols : cF r ≤ cL r := by
+    have : ((cF r : ℤ) : ℚ) < (cL r : ℤ) + 1 := by unfold cF cL; linarith [c.1, d.2]
+    have : cF r < cL r + 1 := by exact_mod_cast this
+    omega
+  have n1 : intRange (rF r) (rL r) ≠ [] := intRange_ne_nil hrows
+  have n2 : intRange (cF r) (cL r) ≠ [] := intRange_ne_nil hcols
+  refine
+    { rows_le := hrows, cols_le := hcols, rF_pos := ?_, rL_le := ?_, cF_nonneg := ?_, cL_le := ?_,
+      top := ?_, bottom := ?_, left := ?_, right := ?_, lats_ne := ?_, lons_ne := ?_,
+      head_lat := ?_, last_lat := ?_, head_lon := ?_, last_lon := ?_ }
+  · have : (0 : ℚ) < (rF r : ℤ) := by unfold rF; linarith [a.2]
+    have : 0 < rF r := by exact_mod_cast this
+    omega
+  · have : ((rL r : ℤ) : ℚ) - 1 < 18000 := by unfold rL; linarith [b.1]
+    have : rL r - 1 < 18000 := by exact_mod_cast this
+    omega
+  · have : (-1 : ℚ) < (cF r : ℤ) := by unfold cF; linarith [c.2]
+    have : -1 < cF r := by exact_mod_cast this
+    omega
+  · have : ((cL r : ℤ) : ℚ) < 43200 := by unfold cL; linarith [d.1]
+    have : cL r < 43200 := by exact_mod_cast this
+    omega
+  · unfold rF; constructor <;> linarith [a.1, a.2]
+  · unfold rL; constructor <;> linarith [b.1, b.2]
+  · unfold cF; constructor <;> linarith [c.1, c.2]
+  · unfold cL; constructor <;> linarith [d.1, d.2]
+  · rw [nativeGrids_eq]; simpa using n1
+  · rw [nativeGrids_eq]; simpa using n2
+  · intro h
+    simp only [nativeGrids_eq, List.head_map, head_intRange n1, rowCentre, dlat_eq]; ring
+  · intro h
+    simp only [nativeGrids_eq, List.getLast_map, getLast_intRange n1, rowCentre, dlat_eq]; ring
+  · intro h
+    simp only [nativeGrids_eq, List.head_map, head_intRange n2, colCentre, dlon_eq]; ring
+  · intro h
+    simp only [nativeGrids_eq, List.getLast_map, getLast_intRange n2, colCentre, dlon_eq]; ring
+
+/-! ### whole tiles -/
+
+theorem native_eq_grids : ∀ t ∈ tiles, nativeGrids (boundsRect t) = (tileLats t, tileLons t) := by
+  intro t ht
+  obtain ⟨f1, f2, f3, f4, f5, f6⟩ := tiles_facts t ht
+  have a := rowFirst_spec (t.latMin : ℚ) (t.latMax : ℚ)
+  have b := rowLast_spec (t.latMin : ℚ) (t.latMax : ℚ)
+  have c := colFirst_spec (t.lonMin : ℚ) (t.lonMax : ℚ) (by exact_mod_cast f5)
+  have d := colLast_spec (t.lonMin : ℚ) (t.lonMax : ℚ) (by
+    have : (-180 : ℤ) ≤ t.lonMax := by omega
+    exact_mod_cast this)
+  have e1 : rF (boundsRect t) = (90 - t.latMax) * 120 + 1 := by
+    unfold rF boundsRect
+    have h1 : (((nativeRows (t.latMin : ℚ) (t.latMax : ℚ)).1 : ℤ) : ℚ) - 1 ≤ (((90 - t.latMax) * 120 : ℤ) : ℚ) := by
+      push_cast; linarith [a.1]
+    have h2 : (((90 - t.latMax) * 120 : ℤ) : ℚ) < ((nativeRows (t.latMin : ℚ) (t.latMax : ℚ)).1 : ℤ) := by
+      push_cast; linarith [a.2]
+    have h1' : (nativeRows (t.latMin : ℚ) (t.latMax : ℚ)).1 - 1 ≤ (90 - t.latMax) * 120 := by exact_mod_cast h1
+    have h2' : (90 - t.latMax) * 120 < (nativeRows (t.latMin : ℚ) (t.latMax : ℚ)).1 := by exact_mod_cast h2
+    simp only; omega
+  have e2 : rL (boundsRect t) = (90 - t.latMin) * 120 := by
+    unfold rL boundsRect
+    have h1 : (((nativeRows (t.latMin : ℚ) (t.latMax : ℚ)).2 : ℤ) : ℚ) - 1 < (((90 - t.latMin) * 120 : ℤ) : ℚ) := by
+      push_cast; linarith [b.1]
+    have h2 : (((90 - t.latMin) * 120 : ℤ) : ℚ) ≤ ((nativeRows (t.latMin : ℚ) (t.latMax : ℚ)).2 : ℤ) := by
+      push_cast; linarith [b.2]
+    have h1' : (nativeRows (t.latMin : ℚ) (t.latMax : ℚ)).2 - 1 < (90 - t.latMin) * 120 := by exact_mod_cast h1
+    have h2' : (90 - t.latMin) * 120 ≤ (nativeRows (t.latMin : ℚ) (t.latMax : ℚ)).2 := by exact_mod_cast h2
+    simp only; omega
+  have e3 : cF (boundsRect t) = (t.lonMin + 180) * 120 := by
+    unfold cF boundsRect
+    have h1 : (((nativeCols (t.lonMin : ℚ) (t.lonMax : ℚ)).1 : ℤ) : ℚ) ≤ (((t.lonMin + 180) * 120 : ℤ) : ℚ) := by
+      push_cast; linarith [c.1]
+    have h2 : (((t.lonMin + 180) * 120 : ℤ) : ℚ) < ((nativeCols (t.lonMin : ℚ) (t.lonMax : ℚ)).1 : ℤ) + 1 := by
+      push_cast; linarith [c.2]
+    have h1' : (nativeCols (t.lonMin : ℚ) (t.lonMax : ℚ)).1 ≤ (t.lonMin + 180) * 120 := by exact_mod_cast h1
+    have h2' : (t.lonMin + 180) * 120 < (nativeCols (t.lonMin : ℚ) (t.lonMax : ℚ)).1 + 1 := by exact_mod_cast h2
+    simp only; omega
+  have e4 : cL (boundsRect t) = (t.lonMax + 180) * 120 - 1 := by
+    unfold cL boundsRect
+    have h1 : (((nativeCols (t.lonMin : ℚ) (t.lonMax : ℚ)).2 : ℤ) : ℚ) < (((t.lonMax + 180) * 120 : ℤ) : ℚ) := by
+      push_cast; linarith [d.1]
+    have h2 : (((t.lonMax + 180) * 120 : ℤ) : ℚ) ≤ ((nativeCols (t.lonMin : ℚ) (t.lonMax : ℚ)).2 : ℤ) + 1 := by
+      push_cast; linarith [d.2]
+    have h1' : (nativeCols (t.lonMin : ℚ) (t.lonMax : ℚ)).2 < (t.lonMax + 180) * 120 := by exact_mod_cast h1
+    have h2' : (t.lonMax + 180) * 120 ≤ (nativeCols (t.lonMin : ℚ) (t.lonMax : ℚ)).2 + 1 := by exact_mod_cast h2
+    simp only; omega
+  rw [nativeGrids_eq, e1, e2, e3, e4, tileLats_eq t f1, tileLons_eq t f2, intRange_eq_map, intRange_eq_map]
+  have n1 : ((90 - t.latMin) * 120 + 1 - ((90 - t.latMax) * 120 + 1)).toNat = tileH := by
+    unfold tileH; omega
+  have n2 : ((t.lonMax + 180) * 120 - 1 + 1 - (t.lonMin + 180) * 120).toNat = tileW := by
+    unfold tileW; omega
+  rw [n1, n2]
+  have hl : List.map (fun (i : ℕ) => rowCentre ((90 - t.latMax) * 120 + 1 + (i : ℤ))) (List.range tileH) =
+      List.map (fun (r : ℕ) => (t.latMax : ℚ) - 1 / 240 - (r : ℚ) / 120) (List.range tileH) :=
+    List.map_congr_left (fun i _ => by simp only [rowCentre, dlat_eq]; push_cast; ring)
+  have hr : List.map (fun (i : ℕ) => colCentre ((t.lonMin + 180) * 120 + (i : ℤ))) (List.range tileW) =
+      List.map (fun (c : ℕ) => (t.lonMin : ℚ) + 1 / 240 + (c : ℚ) / 120) (List.range tileW) :=
+    List.map_congr_left (fun i _ => by simp only [colCentre, dlon_eq]; push_cast; ring)
+  rw [hl, hr]
+
+end Srtm
